@@ -13,7 +13,7 @@ RULE = (
     "near-pole, RA seam} x CD {4 scale/rotation/flip combinations} x CRPIX {centre, corner, far outside}; "
     "pixels = 4x4 (thorough 5x5) grid over the image + CRPIX + 2 seeded points; forms scalar/array/int-array.  "
     "Parts: forward (vs long-double FITS reference, CRPIX->CRVAL, lon range, distort=False, scalar==array, "
-    "jacobian), inverse without root finding, inverse with root finding (fixed point lattice), and histories "
+    "jacobian), inverse without root finding, inverse with root finding (fixed point lattice; and caller tolerance xtol in {1e-8 .. 1e-15, 0} x 5x5 image grid x array/scalar call), and histories "
     "(all sequences of <=3 (4) calls of image2sky / sky2image(find,distort) / get_jacobian on one object, "
     "from a fresh and from an already-fitted object, each result compared with the same call on a fresh "
     "object); several-objects: all histories (<=4 (5) events) of a world of up to 3 live WCS objects of kinds "
@@ -29,6 +29,7 @@ ASSUMPTIONS = [
     "jacobian compared with the central difference of the reference to 1e-6 arcsec/pixel (+1e-9 relative)",
     "sky2image(find=True, distort=False) on a distorted header is only checked for history independence (find wins over distort in the implementation; the statement does not define that combination)",
     "root-finding inputs are a fixed lattice, not seed-rotated",
+    "xtol= of sky2image: only the default value and tighter ones are checked against the 1e-6 px promise (a looser tolerance is a request for less; the statement does not say what it then promises)",
     "SIP headers carry AP_ORDER/BP_ORDER (this implementation requires them)",
     "SIP headers with A_ORDER != B_ORDER: the 'fitted-polynomial accuracy' bound of find=False uses an independent inverse fit of degree min(A_ORDER,B_ORDER)+1 (the implementation sizes both inverse polynomials from the A matrix; the statement does not say which degree is meant)",
 ]
@@ -299,6 +300,58 @@ def main(ctx):
     orders = [(i, j) for i in range(6) for j in range(6) if i != j] + [(0, 1, 2, 3, 4, 5), (5, 4, 3, 2, 1, 0), (0, 1, 0, 1), (2, 2, 1)]
     aunits = [(hd, o) for hd in (asel if not ctx.quick else asel[::2]) for o in (orders if not ctx.quick else orders[::3] + orders[-4:])]
     ctx.lattice("inverse-find-array", aunits, one_find_array, bounds=dict(headers=len(asel), orders=len(orders)))
+
+    # the caller's tolerance: xtol= is a documented keyword of sky2image.  A caller who asks for the default precision or
+    # for more must still get the pixel to 1e-6; the tighter the request the more often the root finder stops with a
+    # status other than "converged" (no progress / tolerance too small) although it sits on the root - a different exit
+    # path of the solver for a numerically coincidental subset of targets, hence a grid of targets over the whole image
+    # for every header and every tolerance from the default down to 0 (= "as far as it goes"), array and scalar calls.
+    XTOLS = [1e-8, 1e-9, 1e-10, 1e-11, 1e-12, 1e-13, 1e-14, 1e-15, 0.0]
+    XGRID = [(float(a), float(b)) for a in np.linspace(1, W.NAX[0], 5) for b in np.linspace(1, W.NAX[1], 5)]
+
+    def one_find_xtol(case, rec):
+        import warnings
+        hd, xtol, form = case
+        h = mk(hd)
+        w = WCS(dict(h))
+        pts = XGRID + [(700.25, 3100.5), (256.875, 1.0)]
+        X = np.array([p[0] for p in pts])
+        Y = np.array([p[1] for p in pts])
+        rr, dd = W.forward(h, X, Y)
+        rr = np.asarray(rr, dtype="f8")
+        dd = np.asarray(dd, dtype="f8")
+        try:
+            with warnings.catch_warnings():
+                warnings.simplefilter("ignore")      # the solver's "not making good progress" notice is legitimate here
+                if form == "array":
+                    xb, yb = w.sky2image(rr.copy(), dd.copy(), xtol=xtol)
+                    calls = 1
+                else:
+                    got = [w.sky2image(float(a), float(b), xtol=xtol) for a, b in zip(rr, dd)]
+                    xb = [float(g[0]) for g in got]
+                    yb = [float(g[1]) for g in got]
+                    calls = len(got)
+        except Exception as e:
+            return rec.fail(case, "sky2image(xtol=%r) raised %s: %s" % (xtol, type(e).__name__, e))
+        xb = np.asarray(xb, dtype="f8")
+        yb = np.asarray(yb, dtype="f8")
+        if xb.shape != X.shape or yb.shape != Y.shape:
+            return rec.fail(case, "sky2image(xtol=%r) returns shapes %r/%r for %d targets" % (xtol, xb.shape, yb.shape, len(X)))
+        e = np.maximum(np.abs(xb - X), np.abs(yb - Y))
+        e = np.where(np.isfinite(e), e, np.inf)
+        if e.max() > 1e-6:
+            j = int(np.argmax(e))
+            return rec.fail(case, "sky2image(find=True, xtol=%r) [%s call]: %d of %d targets miss their pixel by more than 1e-6 px; worst "
+                                  "%.3g px: got (%r,%r) for (%r,%r)" % (xtol, form, int((e > 1e-6).sum()), len(X), e[j], float(xb[j]),
+                                                                       float(yb[j]), float(X[j]), float(Y[j])))
+        rec.ok(case, outcome="find-xtol:%s/%g/%s" % (hd[0], xtol, form), nontrivial=True, calls=calls)
+
+    xsel = sel if ctx.quick else dist_headers[::2]
+    # quick: the scalar form (one call per target, same solver path) only for every fourth header
+    xunits = [(hd, xt, form) for k, hd in enumerate(xsel) for xt in XTOLS for form in ("array", "scalar")
+              if form == "array" or not ctx.quick or k % 4 == 0]
+    ctx.lattice("inverse-find-xtol", xunits, one_find_xtol,
+                bounds=dict(headers=len(xsel), xtols=XTOLS, targets_per_call=len(XGRID) + 2, forms=["array", "scalar"]))
 
     # targets around a celestial pole that lies INSIDE the image (reference point 0.01 / 0.001 / 0 degrees from it), on all
     # meridians - in particular beyond the pole, on and next to the meridian opposite CRVAL1, where a longitude
